@@ -58,6 +58,8 @@ type Run struct {
 	viol      *Violation
 	known     []KnownFinding
 	KnownHits map[string]int
+	// OnlyClasses, when set, restricts the violation classes this run reports (see foreign)
+	OnlyClasses map[string]bool
 	Extra     map[string]int64
 }
 
@@ -165,6 +167,17 @@ func (r *Run) LogLines() []string {
 	return out
 }
 
+// foreign reports whether a violation class is outside the classes this run decides (OnlyClasses
+// set): a property that borrows another property's history generator ignores that generator's
+// own oracles (they are decided by their own check) and only counts them.
+func (r *Run) foreign(class string) bool {
+	if r.OnlyClasses == nil || r.OnlyClasses[class] {
+		return false
+	}
+	r.Probes["foreign_oracle:"+class]++
+	return true
+}
+
 func (r *Run) isKnown(class, sig string) bool {
 	for _, k := range r.known {
 		if k.Status == "open" && k.Property == r.Property && k.Class == class && k.Sig == sig {
@@ -177,6 +190,9 @@ func (r *Run) isKnown(class, sig string) bool {
 // Fail reports a violation. If it matches an open known finding the hit is counted and Fail
 // returns true (the caller decides whether the run can go on); otherwise the run stops here.
 func (r *Run) Fail(class, sig, format string, a ...interface{}) bool {
+	if r.foreign(class) {
+		return true
+	}
 	detail := fmt.Sprintf(format, a...)
 	if r.isKnown(class, sig) {
 		r.KnownHits[class+"|"+sig]++
@@ -192,6 +208,9 @@ func (r *Run) Fail(class, sig, format string, a ...interface{}) bool {
 
 // SetViolation records a violation without panicking (used from goroutines that must not unwind).
 func (r *Run) SetViolation(class, sig, detail string) bool {
+	if r.foreign(class) {
+		return true
+	}
 	if r.isKnown(class, sig) {
 		r.KnownHits[class+"|"+sig]++
 		return true
@@ -236,6 +255,9 @@ func (r *Run) Recover(p interface{}) {
 	default:
 		st := string(debug.Stack())
 		sig := panicSig(fmt.Sprint(p), st)
+		if r.foreign("panic") {
+			return
+		}
 		if r.isKnown("panic", sig) {
 			r.KnownHits["panic|"+sig]++
 			return
@@ -256,7 +278,7 @@ func panicSig(msg, stack string) string {
 	lines := strings.Split(stack, "\n")
 	for _, l := range lines {
 		l = strings.TrimSpace(l)
-		if strings.HasPrefix(l, "github.com/lavanet/lava/") && !strings.Contains(l, "zz_verif") && !strings.Contains(l, "simrt.") {
+		if strings.HasPrefix(l, "github.com/lavanet/lava/") && !strings.Contains(l, "zz_verif") && !strings.Contains(l, "simrt.") && !strings.Contains(l, "/utils.LavaFormat") {
 			if i := strings.Index(l, "("); i > 0 {
 				l = l[:i]
 			}
